@@ -52,7 +52,7 @@ type faultSpec struct {
 	CrashKind []string `json:"crash_kind,omitempty"`
 	CrashN    []int    `json:"crash_n,omitempty"`
 	// C02APP
-	Fault string `json:"fault,omitempty"` // blackhole | kill_host | quit_host
+	Fault string `json:"fault,omitempty"` // blackhole | kill_host | quit_host | kill_receiver
 	AtMs  int    `json:"fault_ms_after_transfer_began,omitempty"`
 }
 
@@ -75,7 +75,7 @@ func (h faultHarness) Gen(r *verifsim.SplitMix, tier string, idx int) any {
 			sp.CrashN = append(sp.CrashN, 1+r.Intn(70))
 		}
 	default:
-		sp.Fault = []string{"blackhole", "blackhole", "kill_host", "quit_host"}[r.Intn(4)]
+		sp.Fault = []string{"blackhole", "blackhole", "kill_host", "quit_host", "kill_receiver", "kill_receiver"}[r.Intn(6)]
 		// a slow link (2-20 ms per datagram) and files of up to 250 chunks: the transfer takes
 		// a second or more, and the fault falls into it
 		sp.PktUs = []int{2000, 5000, 20000}[r.Intn(3)]
@@ -166,6 +166,7 @@ func (h faultHarness) Run(spec any) (res verifsim.RunResult) {
 	var lateWaiting []string
 	var firstEndAfterFault time.Duration = -1
 
+	termFrom := termOffset()
 	verifsim.RecoverPanics, verifsim.ExitedStayDead = true, true
 	defer func() { verifsim.RecoverPanics, verifsim.ExitedStayDead = false, false }()
 	s, bubblePanic := runWorld(sp.Seed, sp.Strat, 65536, flags, false, func(w *world) {
@@ -393,6 +394,9 @@ func (h faultHarness) Run(spec any) (res verifsim.RunResult) {
 				case "kill_host":
 					w.s.Kill("S")
 					closeNode("S")
+				case "kill_receiver":
+					w.s.Kill("R1")
+					closeNode("R1")
 				case "quit_host":
 					netMu.Lock()
 					pw := sStdinW
@@ -410,6 +414,10 @@ func (h faultHarness) Run(spec any) (res verifsim.RunResult) {
 				firstEndAfterFault = time.Since(start) - faultAt
 			}
 			mu.Unlock()
+			if sp.Fault == "kill_receiver" && faultDone {
+				// give the host time to learn it and to make up its mind about that receiver
+				w.run(func() bool { return false }, 45*time.Second)
+			}
 			if sp.Fault == "blackhole" && faultDone {
 				// the slot must come back: a second receiver over a healthy path is served
 				if !gone("R1") {
@@ -512,7 +520,33 @@ func (h faultHarness) Run(spec any) (res verifsim.RunResult) {
 		if e.exited && e.code == 0 && diff != "" {
 			addV("receiver-false-success", "app:"+sp.Fault, fmt.Sprintf("fault %s %d ms after the transfer began: the receiver exited 0 but its tree differs: %s", sp.Fault, sp.AtMs, diff))
 		}
-		if faultDone && !e.exited {
+		// the host's own report about the first receiver: the last "peer=<id> status=<S>" line
+		// its terminal got for the first peer it ever mentioned
+		hostSays, firstPeer := "", ""
+		for _, l := range termSince(termFrom) {
+			if i := strings.Index(l, "peer="); i >= 0 {
+				f := strings.Fields(l[i:])
+				if len(f) >= 2 && strings.HasPrefix(f[1], "status=") {
+					id := strings.TrimPrefix(f[0], "peer=")
+					if firstPeer == "" {
+						firstPeer = id
+					}
+					if id == firstPeer {
+						hostSays = strings.TrimPrefix(f[1], "status=")
+					}
+				}
+			}
+		}
+		facts = append(facts, "host_says="+hostSays)
+		if hostSays != "" {
+			res.Counters["host_report_seen"]++
+		}
+		// the host never reports success for a receiver that did not confirm every file: a
+		// receiver that was killed, or cut off, before its tree was complete
+		if faultDone && (sp.Fault == "kill_receiver" || sp.Fault == "blackhole") && hostSays == "DONE" && diff != "" {
+			addV("host-false-success", "app:"+sp.Fault, fmt.Sprintf("fault %s %d ms after the transfer began: the receiver never held the complete tree (%s), yet the host's terminal ends with status=DONE for it", sp.Fault, sp.AtMs, diff))
+		}
+		if faultDone && !e.exited && sp.Fault != "kill_receiver" {
 			addV("hang-after-fault", "app:"+sp.Fault+":receiver", fmt.Sprintf("fault %s %d ms after the transfer began: the receiver process was still there 4 simulated minutes later (%v); waiting: %v", sp.Fault, sp.AtMs, outcome, waitingOf(s)))
 		}
 		if faultDone && sp.Fault == "blackhole" {
